@@ -130,7 +130,12 @@ func c17Run(in c17In) c17Out {
 	app.offlineModeFilter = NewOfflineModeFilter(va.cfg, app.logger)
 	out.Zones = map[string]string{}
 	for _, h := range out.Hosts {
-		out.Zones[h] = getAvailabilityZone(h, in.Sep)
+		// the zone of a host = the part of its name before the first separator (the harness' own reading of the
+		// configuration, not the implementation's function)
+		out.Zones[h] = ""
+		if idx := strings.Index(h, in.Sep); in.Sep != "" && idx >= 0 {
+			out.Zones[h] = h[:idx]
+		}
 	}
 	if in.Fault != nil {
 		f := *in.Fault
